@@ -1,3 +1,5 @@
 import Bng.Spec.C15
+import Bng.Spec.C15Proc
 import Bng.Audit
 #audit_module Bng.Spec.C15
+#audit_module Bng.Spec.C15Proc
